@@ -306,6 +306,41 @@ def _subst(t, old, new):
     return t
 
 
+def lift_phi(t):
+    """Pull a conditional out of the two places where it selects *which sequence is enumerated*:
+    f(*phi(c, a, b)) == phi(c, f(*a), f(*b)) and a comprehension over phi(c, a, b) is
+    phi(c, comprehension over a, comprehension over b).  `[x] * n` unpacked into itertools.product
+    becomes the `repeat=n` form.  Conditionals elsewhere (e.g. inside a repeat count) stay put."""
+    if not isinstance(t, tuple) or not t:
+        return t
+    t = tuple(lift_phi(x) for x in t)
+    if t[0] == "call" and len(t) == 4 and isinstance(t[2], tuple):
+        for i, a in enumerate(t[2]):
+            if isinstance(a, tuple) and len(a) == 2 and a[0] == "star" and isinstance(a[1], tuple) and a[1] and a[1][0] == "phi":
+                ph = a[1]
+                arm = lambda v: lift_phi(("call", t[1], t[2][:i] + (("star", v),) + t[2][i + 1:], t[3]))  # noqa: E731
+                return mk_phi(ph[1], arm(ph[2]), arm(ph[3]))
+    if t[0] == "comp" and len(t) == 4 and t[3] and isinstance(t[3][0][0], tuple) and t[3][0][0] and t[3][0][0][0] == "phi":
+        ph = t[3][0][0]
+        arm = lambda v: lift_phi(("comp", t[1], t[2], ((v, t[3][0][1]),) + t[3][1:]))  # noqa: E731
+        return mk_phi(ph[1], arm(ph[2]), arm(ph[3]))
+    return _norm_product(t)
+
+
+def _norm_product(t):
+    if isinstance(t, tuple) and t:
+        t = tuple(_norm_product(x) for x in t)
+        if t[0] == "call" and isinstance(t[1], tuple) and show(t[1]).split(".")[-1] == "product" and len(t[2]) == 1 \
+                and not t[3] and t[2][0][0] == "star":
+            inner = t[2][0][1]
+            if inner[0] == "ac" and inner[1] == "*" and len(inner[2]) == 2:
+                lst = [x for x in inner[2] if x[0] == "list" and len(x[1]) == 1]
+                oth = [x for x in inner[2] if not (x[0] == "list" and len(x[1]) == 1)]
+                if len(lst) == 1 and len(oth) == 1:
+                    return ("call", t[1], (lst[0][1][0],), (("repeat", oth[0]),))
+    return t
+
+
 def mk_phi(cond, a, b):
     """phi node with the obvious simplifications (same-condition nesting, equal arms)."""
     if isinstance(a, tuple) and a and a[0] == "phi" and a[1] == cond:
